@@ -28,6 +28,7 @@ type CaseTaint struct {
 	Sanitizers map[*ssa.Function]bool
 	// returnsRaw: module functions that may return raw (not lowercased) case-insensitive text
 	returnsRaw map[*ssa.Function]bool
+	paramMemo  map[*ssa.Function]map[int][]CaseSink
 }
 
 // rawSourceOf classifies a field read as a source of case-insensitive document text.
@@ -144,7 +145,15 @@ func isStringType(t types.Type) bool {
 // analyse computes the raw values of fn (value -> source description) and, for phis that are
 // "raw only when the text starts with --" (the custom property idiom), the marker "custom-or-lowered".
 func (ct *CaseTaint) analyse(fn *ssa.Function) (map[ssa.Value]string, map[ssa.Value]bool) {
+	return ct.analyseSeed(fn, nil)
+}
+
+// analyseSeed is analyse with one more source: the value seed (a parameter), taken to be raw text.
+func (ct *CaseTaint) analyseSeed(fn *ssa.Function, seed ssa.Value) (map[ssa.Value]string, map[ssa.Value]bool) {
 	raw := map[ssa.Value]string{}
+	if seed != nil {
+		raw[seed] = "text passed by the caller"
+	}
 	customOnly := map[ssa.Value]bool{}
 	allocRaw := map[*ssa.Alloc]string{}
 	set := func(v ssa.Value, src string) bool {
@@ -194,7 +203,7 @@ func (ct *CaseTaint) analyse(fn *ssa.Function) (map[ssa.Value]string, map[ssa.Va
 						// custom-property idiom: every raw edge arrives only when HasPrefix(raw, "--") held
 						allCustom := true
 						for _, i := range rawEdges {
-							if !customGuarded(fn, x.Block().Preds[i], x.Block(), x.Edges[i]) {
+							if !customOnly[x.Edges[i]] && !customGuarded(fn, x.Block().Preds[i], x.Block(), x.Edges[i]) {
 								allCustom = false
 							}
 						}
@@ -317,7 +326,72 @@ func customGuarded(fn *ssa.Function, pred, blk *ssa.BasicBlock, v ssa.Value) boo
 
 // Sinks lists the comparisons / lookups of raw text against lettered constants in fn.
 func (ct *CaseTaint) Sinks(fn *ssa.Function) []CaseSink {
+	out := ct.sinksSeed(fn, nil)
+	// raw text handed to a function of the module whose parameter reaches a sink there (one level)
 	raw, customOnly := ct.analyse(fn)
+	Instrs(fn, func(in ssa.Instruction) {
+		call, ok := in.(ssa.CallInstruction)
+		if !ok {
+			return
+		}
+		var callees []*ssa.Function
+		args := call.Common().Args
+		if g := call.Common().StaticCallee(); g != nil {
+			callees = append(callees, g)
+		} else if call.Common().IsInvoke() {
+			name := call.Common().Method.Name()
+			for _, g := range ct.P.ModFuncs {
+				if g.Name() == name && g.Signature.Recv() != nil && g.Blocks != nil && len(g.Params) == len(args)+1 {
+					callees = append(callees, g)
+				}
+			}
+		}
+		for _, g := range callees {
+			if g.Pkg == nil || !InModule(g.Pkg.Pkg.Path()) || g.Blocks == nil || ct.Sanitizers[g] || g == fn {
+				continue
+			}
+			off := len(g.Params) - len(args) // 1 for an interface method call: the receiver
+			for i, a := range args {
+				if raw[a] == "" || i+off >= len(g.Params) || !isStringType(a.Type()) {
+					continue
+				}
+				for _, s := range ct.paramSinks(g, i+off) {
+					if customOnly[a] && !strings.HasPrefix(s.Const, "--") {
+						continue // a custom property name or lower-cased text: only constants starting with -- matter
+					}
+					out = append(out, CaseSink{fn, in, s.Const, "passed to " + g.Name() + ", where it is " + s.What, raw[a]})
+					break
+				}
+			}
+		}
+	})
+	return out
+}
+
+// paramSinks: the sinks of g when its parameter i is raw text (memoised).
+func (ct *CaseTaint) paramSinks(g *ssa.Function, i int) []CaseSink {
+	if ct.paramMemo == nil {
+		ct.paramMemo = map[*ssa.Function]map[int][]CaseSink{}
+	}
+	if m, ok := ct.paramMemo[g]; ok {
+		if r, ok := m[i]; ok {
+			return r
+		}
+	} else {
+		ct.paramMemo[g] = map[int][]CaseSink{}
+	}
+	var r []CaseSink
+	for _, s := range ct.sinksSeed(g, g.Params[i]) {
+		if s.Source == "text passed by the caller" {
+			r = append(r, s)
+		}
+	}
+	ct.paramMemo[g][i] = r
+	return r
+}
+
+func (ct *CaseTaint) sinksSeed(fn *ssa.Function, seed ssa.Value) []CaseSink {
+	raw, customOnly := ct.analyseSeed(fn, seed)
 	var out []CaseSink
 	okConst := func(v ssa.Value, c string) bool {
 		// a lettered constant; for custom-or-lowered values constants starting with "--" are the only unsafe ones
